@@ -378,7 +378,7 @@ static bool fsOp(HxLine& l)
   else if(hxIs(l, "fsrmdir", 2))
   {
     if(hitsCwd(p)) return false;
-    if(!lastIsName(p) || (l.tok[2][0] != '0' && l.tok[2][0] != '1') || l.tok[2][1]) return false;
+    if( (l.tok[2][0] != '0' && l.tok[2][0] != '1') || l.tok[2][1]) return false;
     printf("%d", Directory::unlink(p, l.tok[2][0] == '1') ? 1 : 0);
   }
   else if(hxIs(l, "fsunlink", 1))
